@@ -1433,6 +1433,14 @@ func (p *Posix) CompleteMultipartUpload(ctx context.Context, input *s3.CompleteM
 		return nil, fmt.Errorf("stat bucket: %w", err)
 	}
 
+	// Completing an upload replaces the current object like PutObject and
+	// CopyObject do: an object under legal hold or retention must not be
+	// replaced this way either.
+	err = auth.CheckObjectAccess(ctx, bucket, acct.Access, []types.ObjectIdentifier{{Key: &object}}, true, p)
+	if err != nil {
+		return nil, err
+	}
+
 	sum, err := p.checkUploadIDExists(bucket, object, uploadID)
 	if err != nil {
 		return nil, err
